@@ -40,6 +40,7 @@ func init() {
 				return err
 			}
 			nSeeds = len(W.Objs)
+			cfgWorkBuild(c)
 			c03Build(c) // the boundary campaign of C03: objects dated exactly at every lint's effective / ineffective instant
 			return nil
 		},
@@ -58,11 +59,25 @@ func init() {
 				c.R.Count("names_checked", 1)
 			}
 		},
-		Cases: func(c *mon.Ctx) int { return nSeeds + c.Pick(40000, 2000000) + directedCount(c) + len(c03Cases) },
+		Cases: func(c *mon.Ctx) int { return nSeeds + c.Pick(40000, 2000000) + directedCount(c) + len(c03Cases) + len(cfgWork) },
 		RunCase: func(c *mon.Ctx, i int) {
 			nMut := nSeeds + c.Pick(40000, 2000000)
 			var o *mon.Obj
 			var desc string
+			if nc := nMut + directedCount(c) + len(c03Cases); i >= nc {
+				// configuration-dependent return paths
+				cfgWorkRun(c, i-nc, func(o *mon.Obj, reg lint.Registry, desc string) {
+					rs, pv, _ := o.Lint(reg)
+					c.R.Count("evaluations", 1)
+					c.R.Count("configured_evaluations", 1)
+					if pv != nil {
+						c.R.CrossObs("C01:panic-at-caller")
+						return
+					}
+					c06Observe(c, o, mon.SnapOf(rs), o.Name+"~"+desc)
+				})
+				return
+			}
 			if nb := nMut + directedCount(c); i >= nb {
 				cs := c03Cases[i-nb]
 				var base *mon.Obj
@@ -113,6 +128,12 @@ func init() {
 			}
 			ev.Coverage["lints_with_finding_observed"] = len(with)
 			ev.Coverage["lints_registered"] = len(Inv)
+			ev.Coverage["configured_lints"] = r.SetKeys("configured_lints")
+			ev.Coverage["configured_documents"] = r.Counters["configured_documents"]
+			ev.Coverage["configured_evaluations"] = r.Counters["configured_evaluations"]
+			if r.Counters["configured_evaluations"] == 0 {
+				gates = append(gates, "no configured run observed")
+			}
 			ev.Coverage["lints_never_reporting_a_finding"] = never
 			if r.Counters["names_checked"] != int64(len(Inv)) {
 				gates = append(gates, "prefix census did not run over the whole registry")
